@@ -24,30 +24,28 @@ Definition mant_exp (b : Z) : Z * Z :=
 
 (* ---------- decimal -> double ---------- *)
 Definition round_ne (p q : Z) : Z :=
-  let d := p / q in
-  let r := p mod q in
+  let (d, r) := Z.div_eucl p q in
   if 2 * r <? q then d else if q <? 2 * r then d + 1 else if Z.even d then d else d + 1.
 
-(* floor (log2 (p/q)) for p, q > 0 *)
-Definition flog2_ratio (p q : Z) : Z :=
-  let k := Z.log2 p - Z.log2 q in
-  let ge := if 0 <=? k then (q * 2 ^ k <=? p) else (q <=? p * 2 ^ (- k)) in
-  if ge then k else k - 1.
+(* p/q (p, q > 0) rounded to binary64: sign bit pattern [s] + exponent field + fraction; None = overflow.
+   fl = floor (log2 (p/q)) whenever p/q >= 2^-1100 (below that the result is zero whatever fl is). *)
+Definition round_core (s p q : Z) : option Z :=
+  let fl := Z.log2 ((p * 2 ^ 1100) / q) - 1100 in
+  let E := Z.max (fl - 52) (-1074) in
+  let M := if 0 <=? E then round_ne p (q * 2 ^ E) else round_ne (p * 2 ^ (- E)) q in
+  let (M', E') := if M =? 2 ^ 53 then (2 ^ 52, E + 1) else (M, E) in
+  if M' <? 2 ^ 52 then Some (s + M')
+  else if 971 <? E' then None
+  else Some (s + (E' + 1075) * 2 ^ 52 + (M' - 2 ^ 52)).
 
+(* (-1)^neg * m * 10^e10 *)
 Definition dec2b64 (neg : bool) (m e10 : Z) : option Z :=
   let s := if neg then 2 ^ 63 else 0 in
   if m =? 0 then Some s
   else if 310 <? e10 then None                                   (* >= 1e311 *)
   else if Z.log2 m + 1 + 3 * e10 <? -1080 then Some s            (* < 2^-1080: rounds to zero *)
-  else
-    let (p, q) := if 0 <=? e10 then (m * 10 ^ e10, 1) else (m, 10 ^ (- e10)) in
-    let fl := flog2_ratio p q in
-    let E := Z.max (fl - 52) (-1074) in
-    let M := if 0 <=? E then round_ne p (q * 2 ^ E) else round_ne (p * 2 ^ (- E)) q in
-    let (M', E') := if M =? 2 ^ 53 then (2 ^ 52, E + 1) else (M, E) in
-    if M' <? 2 ^ 52 then Some (s + M')
-    else if 971 <? E' then None
-    else Some (s + (E' + 1075) * 2 ^ 52 + (M' - 2 ^ 52)).
+  else if 0 <=? e10 then round_core s (m * 10 ^ e10) 1
+  else round_core s m (10 ^ (- e10)).
 
 Definition digits_val (ds : list Z) : Z := fold_left (fun a c => a * 10 + (c - 48)) ds 0.
 
@@ -77,8 +75,10 @@ Definition place_point (ds : list Z) (k : nat) : list Z * list Z :=
   let n := (length ds' - k)%nat in
   (firstn n ds', skipn n ds').
 
+Definition num_ok64 (b : Z) : bool := is_bits b && finiteb b.
+
 Definition fmt64 (b : Z) : option numtok :=
-  if negb (finiteb b) then None
+  if negb (num_ok64 b) then None
   else
     let (M, E) := mant_exp b in
     let neg := b_sign b =? 1 in
@@ -123,6 +123,10 @@ Definition run_roundtrip (d : elem) : list Z :=
   | Value t => enc_outcome (parse_json [t])
   | o => enc_outcome o
   end.
+(* both at once: [generate; round trip] *)
+Definition run_gen_rt (d : elem) : list (list Z) :=
+  let g := generate_json [d] in
+  [enc_outcome g; match g with Value t => enc_outcome (parse_json [t]) | o => enc_outcome o end].
 (* number conversion alone: (neg, mantissa, exponent) -> bits or [] *)
 Definition run_dec2b64 (x : bool * Z * Z) : list Z :=
   match x with (neg, m, e) => match dec2b64 neg m e with Some b => [b] | None => [] end end.
